@@ -37,6 +37,8 @@ def bind_repo():
         raise HarnessError("jsonschema imported from %s, not from %s" % (where, REPO))
     from . import netstub
     netstub.install()
+    import warnings
+    warnings.simplefilter("ignore")
     return jsonschema
 
 
